@@ -112,6 +112,7 @@ type c14Outcome struct {
 	Window     bool // a read that missed the cache was followed by a completed mutation of the key
 	LateWB     bool // a write-back landed after such a mutation
 	Overlap    bool // two list updates overlapped between their read and their write
+	Concurrent bool // two list updates were in flight at the same time (history level)
 	FaultHit   bool
 	Calls      map[string]int
 	CrossReads int
@@ -291,6 +292,21 @@ func (ev *c14Eval) coverage() {
 			ups = append(ups, x)
 		}
 	}
+	// opportunity (independent of how the facade is implemented): two list updates were
+	// in flight at the same time
+	var muts []*c14HOp
+	for _, h := range ev.hist {
+		if h.Phase == 1 && h.Err == "" && (h.Kind == "append" || h.Kind == "remove") {
+			muts = append(muts, h)
+		}
+	}
+	for i := range muts {
+		for j := i + 1; j < len(muts); j++ {
+			if muts[i].Call < muts[j].Ret && muts[j].Call < muts[i].Ret {
+				ev.out.Concurrent = true
+			}
+		}
+	}
 	for i := range ups {
 		for j := range ups {
 			if i == j {
@@ -373,7 +389,7 @@ func (ev *c14Eval) routing() {
 		}
 		for _, n := range need {
 			if !got[n] {
-				ev.report(fmt.Sprintf("C14:route|category=%s|missing=%s|op=%s", ev.cat(), c14TierClass(n), h.Kind),
+				ev.report(fmt.Sprintf("C14:route|category=%s|missing=%s", ev.cat(), c14TierClass(n)),
 					fmt.Sprintf("%s returned nil without a %s on tier %q (topology %s)", h.Kind, want, n, sc.Topo),
 					map[string]any{"op": h})
 			}
@@ -546,10 +562,10 @@ func (ev *c14Eval) registers() {
 		sig, why := ev.classify(node, upto, "")
 		if sig == "" {
 			if divergence {
-				sig = fmt.Sprintf("C14:crossnode|category=%s|template=%s", ev.cat(), sc.Tmpl)
+				sig = fmt.Sprintf("C14:crossnode|category=%s", ev.cat())
 				why = "each node's reads are consistent on their own but the two nodes disagree about the order/visibility of writes"
 			} else {
-				sig = fmt.Sprintf("C14:nonlinearizable|category=%s|template=%s", ev.cat(), sc.Tmpl)
+				sig = fmt.Sprintf("C14:nonlinearizable|category=%s", ev.cat())
 				why = "history is not linearizable as a register with delete and none of the known causes applies"
 			}
 		}
@@ -644,7 +660,7 @@ func (ev *c14Eval) lists() {
 		effect := "lost"
 		sig, why := ev.classify(h.Node, upto, "list")
 		if sig == "" {
-			sig = fmt.Sprintf("C14:list-unexplained|category=%s|template=%s", ev.cat(), sc.Tmpl)
+			sig = fmt.Sprintf("C14:list-unexplained|category=%s", ev.cat())
 			why = "no overlapping updates, no late write-back, no injected fault explains it"
 		}
 		ev.report(sig, "list read after completed append/remove calls misses appended/initial members or still has removed ones: "+why,
